@@ -112,6 +112,8 @@ def run(ctx, host=None):
     nsite = 0
     from .common import accumulators_grow_only
     accumulators_grow_only(ctx, chk, R1, SITES)
+    from .common import full_scans_unfiltered
+    full_scans_unfiltered(ctx, chk, R1)
     seen_fns = set()
     for q in SITES:
         fn0 = prog.fn(q)
